@@ -323,6 +323,58 @@ def check_C18(tier):
                            "dropped droppable packets")
 
 
+def check_C02(tier):
+    out = Outcome("C02", tier, "model_checking")
+    wd = vlib.workdir("C02")
+    r = vlib.model_check("MC_Interop.tla", "MC_Interop.cfg", wd, timeout=1200, workers=4)
+    out.add_s1(r, "MC_Interop publish (ClientSession || ServerSession || two FIFO message channels || accepting application; safety + liveness)")
+    r = vlib.model_check("MC_Interop.tla", "MC_Interop_play.cfg", wd, timeout=1200, workers=4)
+    out.add_s1(r, "MC_Interop play")
+    logs = sess_logs(wd, "interop", "x", tier)
+    res = vlib.parallel([(lambda pth=pth: vlib.validate_trace("Trace_Interop.tla", pth, wd, {})) for pth, _ in logs], nproc=8)
+    for (pth, info), r in zip(logs, res):
+        out.add_trace(r, runs=info.get("runs", 0))
+        out.cov["items_sent"] = out.cov.get("items_sent", 0) + info.get("steps", 0)
+        out.verdicts(r)
+    sample_events(out, logs[0][0], ("Start", "Send", "Recv", "Mark"), n=4)
+    out.assumptions = ["the scheduler delivers bytes in order per direction (TCP); scenario steps are triggered by events", "TLC; harness logger",
+                       "the message-level model has no bytes: 'any fragmentation' at model level rests on C15; the real runs do fragment"]
+    return out.finish(rule="two real sessions back to back: publish or play, chunk size in {1,2,128,4096,65536,2^31-1} per side, windows "
+                           "{1,100,4096,2^20,2^32-1} (never both small), bw-done on/off, uptime offsets across 2^24/2^32, 0..7 items (payload "
+                           "0..70000, boundary timestamps, all metadata field combinations), whole/1-byte/boundary/random fragmentation "
+                           "with random interleaving of the two directions; item-level FIFO exactly-once oracle in TLA+")
+
+
+def check_C15(tier):
+    out = Outcome("C15", tier, "model_checking")
+    wd = vlib.workdir("C15")
+    r = vlib.model_check("MC_Staged.tla", "MC_Staged.cfg", wd, workers=4)
+    out.add_s1(r, "MC_Staged (staged parser: every partition reaches the one-shot state)")
+    r = vlib.model_check("MC_Staged.tla", "MC_Staged_eager.cfg", wd, workers=4, expect_violation="PartitionIndependent")
+    out.cov["negative_control"] = "a stage that consumes a partial field violates PartitionIndependent"
+    # valid streams: each stream is fed under two partitions; both logs must be accepted by the deterministic oracle
+    logs = chunk_logs(wd, "ser_fixed", tier, shards=4) + chunk_logs(wd, "foreign", tier, shards=4) + chunk_logs(wd, "interleaved", tier, shards=2)
+    chunk_validate(out, logs, wd, False, False, is_des, "c15v")
+    # any stream (valid, mutated, invalid): relational check of two partitions on two fresh instances
+    plogs = sess_logs(wd, "pair", "x", tier)
+    res = vlib.parallel([(lambda pth=pth: vlib.validate_trace("Trace_Pair.tla", pth, wd, {})) for pth, _ in plogs], nproc=8)
+    for (pth, info), r in zip(plogs, res):
+        out.add_trace(r, runs=2 * info.get("runs", 0))
+        out.cov["stream_pairs"] = out.cov.get("stream_pairs", 0) + info.get("runs", 0)
+        out.verdicts(r)
+    with open(plogs[0][0]) as f:
+        e = json.loads(f.readline())
+        out.sample({"kind": e["kind"], "mutated": e["mutated"], "pa": e["pa"], "pb": e["pb"], "a_err": e["a"]["err"], "b_err": e["b"]["err"],
+                    "results_a": len(e["a"]["outs"]), "results_b": len(e["b"]["outs"])})
+    out.assumptions = ["session comparisons project away acknowledgements (call-dependent by definition, C17); wall-clock timestamps are pinned by the clock hook",
+                       "when a session call fails, results of earlier messages of that call cannot be returned: 'agrees on everything delivered before' is read as prefix-compatible",
+                       "TLC; harness logger"]
+    return out.finish(rule="(a) library-made, foreign and interleaved valid streams, each under two partitions (one-shot/per-packet vs random/"
+                           "header cuts/byte-wise), both judged by the deterministic Trace_Chunk oracle; (b) valid and mutated (1-3 bit flips/"
+                           "deletions/insertions/truncations) streams fed to two fresh deserializers / server sessions (5 pre-states) / client "
+                           "sessions (9 pre-states) under two partitions, compared by Trace_Pair")
+
+
 def check_C17(tier):
     out = Outcome("C17", tier, "model_checking")
     wd = vlib.workdir("C17")
